@@ -74,8 +74,13 @@ def _constructed_all(ctx, ci, fields=()):
 def _guard_of(v):
     """(function qualname, first arg, second arg) of a checks.* call term, else None."""
     if isinstance(v, Term) and v.op == "call" and isinstance(v.args[0], Fn) and v.args[0].fi.module.name == "indi.message.checks":
-        a = v.args[1]
-        return v.args[0].fi.name, (a[0] if a else None), (a[1] if len(a) > 1 else None)
+        fi = v.args[0].fi
+        names = [x.arg for x in fi.node.args.posonlyargs + fi.node.args.args]
+        a = list(v.args[1])
+        kw = dict(v.args[2]) if len(v.args) > 2 else {}
+        # bound as the call binds them: positionally, then by parameter name
+        bound = [a[i] if i < len(a) else kw.get(names[i]) if i < len(names) else None for i in range(2)]
+        return fi.name, bound[0], bound[1]
     return None
 
 
